@@ -1525,6 +1525,15 @@ FROM (
             if comp and comp.data_type:
                 type_name = getattr(comp.data_type, "__name__", str(comp.data_type))
                 return type_name
+        if (
+            isinstance(node, AST.VarID)
+            and node.value in self.scalars
+            and self._get_udo_param(node.value) is None
+            and self._resolve_clause_component(node.value) is None
+        ):
+            scalar_type = self.scalars[node.value].data_type
+            if scalar_type is not None:
+                return getattr(scalar_type, "__name__", str(scalar_type))
         return None
 
     def visit_ParamOp_cast(self, node: AST.ParamOp) -> str:
